@@ -15,6 +15,8 @@ PUBACK, PUBREC, PUBCOMP, SUBACK, UNSUBACK = 1, 2, 3, 4, 5
 
 CLAUSES = {
     "1": "panic in the sink",
+    "41": "C04: an inbound QoS 1 PUBLISH (operation 17) on a healthy server connection (open before and after, no "
+          "streamed payload owed, packet id != 0) was not answered: its PUBACK is missing from the wire",
     "51": "C05: a QoS>0 packet was written although the window was full (outstanding >= cap) or back-pressure was on",
     "52": "C05: more packets in flight than the send limit (inflight > cap) after a send",
     "61": "C06: a send completed successfully without the matching acknowledgement (type and id) of the oldest "
@@ -130,8 +132,15 @@ def track(ver, case, obs, want):
         # --- packets written in this step (a DISCONNECT entry is (7, reason code); v3 has no reason: 0)
         if 15 in want and ver == 5 and mismatch_here and any(tag == DISC and rc == 0 for (tag, rc) in wire):
             return "0,151,%d" % i
-        if 8 in want and prev_streaming and any(tag != CHUNK and tag != DISC for (tag, _) in wire):
+        if 8 in want and prev_streaming and any(tag < 100 and tag != CHUNK and tag != DISC for (tag, _) in wire):
             return "0,81,%d" % i
+        # --- an inbound request (operation 17: the peer publishes with QoS 1, the handler answers at once) must be
+        # answered whatever the state of the outbound window / back-pressure (entries >= 100 are packets other than
+        # the sink's own: 104 = PUBACK; every other clause ignores them)
+        if 4 in want and code == 17 and role == 0 and len(op) > 1 and op[1] % 65536 != 0 and prev_open and is_open \
+                and not prev_streaming and not streaming:
+            if (104, op[1] % 65536) not in wire:
+                return "0,41,%d" % i
         for (tag, pid) in wire:
             if tag in (PUB1, PUB2, SUB, UNSUB):
                 if 5 in want and not closed_expected:
